@@ -24,8 +24,13 @@ def jobs(tier):
                 continue
             out.extend(_leaf_jobs(t, tier, which, lo, hi, q))
     stemps = ["t_macro_sub", "t_blocks", "t_alias_macro", "t_macro_nested", "t_loop_sub"] if q else ALL
+    from ..harness.roundtrip import _mutate
+    from ..spec.templates import T
     for t in stemps:
         for mut in MUTATIONS:
+            probe = T[t](**{n: (min(hi, 2) if n == "size" else max(lo, 0) if lo <= 0 <= hi else lo) for n, lo, hi in ranges(t, "quick")})
+            if _mutate(probe, mut, 0) is None:
+                continue        # this kind of mutation has no site in this template
             out.extend(tjobs(f"{H}:c20_struct", t, "quick", fixed={"m_kind": mut}, functions=FUNCS, timeout=300 if q else 1200,
                              extra_params=[("m_site", "int")], extra_pre=["0 <= m_site <= 1" if q else "0 <= m_site <= 3"],
                              shrink={n: (lo, min(hi, lo + 1)) for n, lo, hi in ranges(t, "quick")},
@@ -52,7 +57,11 @@ def _leaf_jobs(t, tier, which, lo, hi, q):
             fixed[n] = 0
     # the other leaves take a small window of their range (they only provide context for the hole)
     params = [(n, "int") for n, _, _ in sym] + [("va", "int"), ("vb", "int")]
-    pre = [f"{max(l, 0) if l <= 0 <= h else l} <= {n} <= {min(h, (max(l, 0) if l <= 0 <= h else l) + 1)}" for n, l, h in sym] + [f"{lo} <= va <= {hi}", f"{lo} <= vb <= {hi}"]
+    def base(n, l, h):
+        b = max(l, 0) if l <= 0 <= h else l
+        return min(h, 2) if n == "size" else (min(h, max(l, 1)) if n in ("c", "k", "b") else b)
+    wdt = 0 if q else 1
+    pre = [f"{base(n, l, h)} <= {n} <= {min(h, base(n, l, h) + wdt)}" for n, l, h in sym] + [f"{lo} <= va <= {hi}", f"{lo} <= vb <= {hi}"]
     return [CH(name=f"c20_leaf_{t}_{which}", base="c20_leaf", func=f"{H}:c20_leaf", params=params, pre=pre, fixed=fixed, timeout=240 if q else 900,
                functions=FUNCS, note=f"{t}: leaf {which} is a in one copy and b in the other (other leaves in a 2-value window); "
                                      "(c_a == c_b) must agree with equality of declarations and meaning")]
